@@ -104,6 +104,8 @@ def run_for(pid, root=None, jobs=None):
         jobs = jobs or min(16, len(vs))
         with multiprocessing.Pool(jobs) as pool:
             res = pool.map(_one, [(m, root) for m in vs])
+    from selftest import generic
+    res = list(res) + generic.run(pid, root=root)
     summ = {}
     for n, st, msg in res:
         summ[st] = summ.get(st, 0) + 1
